@@ -2,7 +2,7 @@ CONSTANTS
   Part = "indep"
   G = {"g1"}
   Programs <- ProgOne
-  NExch = 1  WholeCall = TRUE  Locked = TRUE
+  NExch = 1  WholeCall = TRUE  Locked = TRUE  NotifyInside = TRUE
   V = {"v1", "v2", "v3"} DocOf <- DocOf3 SignTime <- SignTimeAB ValidAt <- ValidAtAB PerCallContext = FALSE
   C = {"c1"}
 INIT Init
